@@ -147,7 +147,13 @@ def check_world(w, rec, what, case, feats, completed_required=True):
         elif 'payload handed over differs' in p:
             mech = 'payload-mismatch'
         elif not done:
-            continue          # unmatched receives/sends are only judged "once all parties have shut down"
+            # unmatched receives are only judged "once all parties have shut down"; but a run that has reached quiescence (no party can take a step and
+            # nothing is in flight) is final too: a message that was sent under one label while the peer waits under another label on the same
+            # connection will never be consumed
+            if w.status == 'DEADLOCK' and 'multisets differ' in p and 'sent-not-received []' not in p and 'received-not-sent []' not in p:
+                n += 1
+                rec.violation(f'{what}: run reached quiescence with {p}', dict(feats, mechanism='label-disagreement-at-quiescence'), case, case=case.get('case'))
+            continue
         elif 'multisets differ' in p:
             mech = 'unmatched'
         else:
@@ -186,16 +192,18 @@ def run(shard, rec):
                          sample={'config': shard['name'], 'steps': [s[0] for s in spec['steps']], 'policy': policy, 'frames': frames,
                                  'labels_first_conn': [f[0] for f in w.frames(0, 1)[0][:4]]} if pi == 0 else None)
         from vlib import fxprogs
-        for pi in range(max(3, shard['programs'] // 2)):
-            spec = fxprogs.gen(rng, m, l=16, f=8, ops=fxprogs.CHEAP + ['mul_float', 'div_pub', 'mul_float'], n_steps=(3, 7))
-            for policy in rng.sample(sim.POLICIES, 2):
+        for pi in range(max(24, 2 * shard['programs'])):
+            spec = fxprogs.gen(rng, m, l=16, f=8, ops=fxprogs.CHEAP + ['mul_float', 'div_pub', 'mul_float', 'mul_float'], n_steps=(3, 7))
+            if pi % 2 == 0:
+                spec['sleepy'] = rng.randrange(m)          # one party yields once to its event loop between two top-level calls (timing skew between parties)
+            for policy in rng.sample(sim.POLICIES, 3):
                 sseed = rng.randrange(1 << 30)
                 case = [shard['name'], 'fxp', pi, policy, sseed]
                 if not rec.wants(case):
                     continue
                 w = sim.World(m, t, no_prss, seed=sseed, policy=policy).run(fxprogs.build(spec))
                 rec.count('runs')
-                feats = {'asymmetric_yield': False, 'deferred_bump': bool(w.deferred_bumps)}
+                feats = {'asymmetric_yield': spec.get('sleepy') is not None, 'deferred_bump': bool(w.deferred_bumps)}
                 n, frames, done = check_world(w, rec, f'{shard["name"]} fxp program {pi} {[s[0] for s in spec["steps"]]} policy {policy}', {'case': case, 'fxspec': spec, 'policy': policy}, feats)
                 rec.count('runs_completed' if done else 'runs_not_completed')
                 if not done:
